@@ -224,6 +224,9 @@ def run_synth(rng):
     rl = d.role_lines()
     if crlf:
         rl = [(r, l + '\r' if r == 'hunk' else l) for r, l in rl]
+        if rng.random() < 0.4:
+            # a lone CR inside the text as well (progress output checked in): only the CR at the end belongs to the line ending
+            rl = [(r, l[:len(l) // 2] + '\r' + l[len(l) // 2:] if r == 'hunk' and len(l) > 6 and rng.random() < 0.4 else l) for r, l in rl]
         if rng.random() < 0.5:
             # some of the CRLF lines hold a byte that is not valid UTF-8 (written as a lone surrogate here)
             rl = [(r, l[:2] + '\udcff' + l[2:] if r == 'hunk' and len(l) > 3 and rng.random() < 0.4 else l) for r, l in rl]
